@@ -25,46 +25,46 @@ func script(p prod) {
 	}
 }
 
-func VH_c20_script_FromSeq() { script(find("FromSeq")) }
-func VH_c20_script_FromSlice() { script(find("FromSlice")) }
-func VH_c20_script_Of() { script(find("Of")) }
-func VH_c20_script_IteratorOfSeq() { script(find("IteratorOfSeq")) }
-func VH_c20_script_Empty() { script(find("Empty")) }
-func VH_c20_script_ReverseSeq() { script(find("ReverseSeq")) }
-func VH_c20_script_ReverseSlice() { script(find("ReverseSlice")) }
-func VH_c20_script_FromOption() { script(find("FromOption")) }
-func VH_c20_script_FromPtr() { script(find("FromPtr")) }
-func VH_c20_script_FromList() { script(find("FromList")) }
-func VH_c20_script_List() { script(find("List")) }
+func VH_c20_script_FromSeq()         { script(find("FromSeq")) }
+func VH_c20_script_FromSlice()       { script(find("FromSlice")) }
+func VH_c20_script_Of()              { script(find("Of")) }
+func VH_c20_script_IteratorOfSeq()   { script(find("IteratorOfSeq")) }
+func VH_c20_script_Empty()           { script(find("Empty")) }
+func VH_c20_script_ReverseSeq()      { script(find("ReverseSeq")) }
+func VH_c20_script_ReverseSlice()    { script(find("ReverseSlice")) }
+func VH_c20_script_FromOption()      { script(find("FromOption")) }
+func VH_c20_script_FromPtr()         { script(find("FromPtr")) }
+func VH_c20_script_FromList()        { script(find("FromList")) }
+func VH_c20_script_List()            { script(find("List")) }
 func VH_c20_script_ToList_FromList() { script(find("ToList_FromList")) }
-func VH_c20_script_Take() { script(find("Take")) }
-func VH_c20_script_Drop() { script(find("Drop")) }
-func VH_c20_script_TakeWhile() { script(find("TakeWhile")) }
-func VH_c20_script_DropWhile() { script(find("DropWhile")) }
-func VH_c20_script_Filter() { script(find("Filter")) }
-func VH_c20_script_FilterNot() { script(find("FilterNot")) }
-func VH_c20_script_TapEach() { script(find("TapEach")) }
-func VH_c20_script_Appended() { script(find("Appended")) }
-func VH_c20_script_MethodConcat() { script(find("MethodConcat")) }
-func VH_c20_script_MethodConcat3() { script(find("MethodConcat3")) }
-func VH_c20_script_MethodMap() { script(find("MethodMap")) }
-func VH_c20_script_MethodFlatMap() { script(find("MethodFlatMap")) }
-func VH_c20_script_Map() { script(find("Map")) }
-func VH_c20_script_Lift() { script(find("Lift")) }
-func VH_c20_script_FlatMap() { script(find("FlatMap")) }
-func VH_c20_script_Flatten() { script(find("Flatten")) }
-func VH_c20_script_FilterMap() { script(find("FilterMap")) }
-func VH_c20_script_Compose() { script(find("Compose")) }
-func VH_c20_script_ComposePure() { script(find("ComposePure")) }
-func VH_c20_script_Concat() { script(find("Concat")) }
-func VH_c20_script_Ap() { script(find("Ap")) }
+func VH_c20_script_Take()            { script(find("Take")) }
+func VH_c20_script_Drop()            { script(find("Drop")) }
+func VH_c20_script_TakeWhile()       { script(find("TakeWhile")) }
+func VH_c20_script_DropWhile()       { script(find("DropWhile")) }
+func VH_c20_script_Filter()          { script(find("Filter")) }
+func VH_c20_script_FilterNot()       { script(find("FilterNot")) }
+func VH_c20_script_TapEach()         { script(find("TapEach")) }
+func VH_c20_script_Appended()        { script(find("Appended")) }
+func VH_c20_script_MethodConcat()    { script(find("MethodConcat")) }
+func VH_c20_script_MethodConcat3()   { script(find("MethodConcat3")) }
+func VH_c20_script_MethodMap()       { script(find("MethodMap")) }
+func VH_c20_script_MethodFlatMap()   { script(find("MethodFlatMap")) }
+func VH_c20_script_Map()             { script(find("Map")) }
+func VH_c20_script_Lift()            { script(find("Lift")) }
+func VH_c20_script_FlatMap()         { script(find("FlatMap")) }
+func VH_c20_script_Flatten()         { script(find("Flatten")) }
+func VH_c20_script_FilterMap()       { script(find("FilterMap")) }
+func VH_c20_script_Compose()         { script(find("Compose")) }
+func VH_c20_script_ComposePure()     { script(find("ComposePure")) }
+func VH_c20_script_Concat()          { script(find("Concat")) }
+func VH_c20_script_Ap()              { script(find("Ap")) }
 func VH_c20_script_FlapMap_Method1() { script(find("FlapMap_Method1")) }
-func VH_c20_script_Flap() { script(find("Flap")) }
-func VH_c20_script_Zip() { script(find("Zip")) }
-func VH_c20_script_ZipWithIndex() { script(find("ZipWithIndex")) }
-func VH_c20_script_Zip3() { script(find("Zip3")) }
-func VH_c20_script_Scan() { script(find("Scan")) }
-func VH_c20_script_Range() { script(find("Range")) }
-func VH_c20_script_RangeClosed() { script(find("RangeClosed")) }
-func VH_c20_script_GenerateTake() { script(find("GenerateTake")) }
-func VH_c20_script_SeqMethods() { script(find("SeqMethods")) }
+func VH_c20_script_Flap()            { script(find("Flap")) }
+func VH_c20_script_Zip()             { script(find("Zip")) }
+func VH_c20_script_ZipWithIndex()    { script(find("ZipWithIndex")) }
+func VH_c20_script_Zip3()            { script(find("Zip3")) }
+func VH_c20_script_Scan()            { script(find("Scan")) }
+func VH_c20_script_Range()           { script(find("Range")) }
+func VH_c20_script_RangeClosed()     { script(find("RangeClosed")) }
+func VH_c20_script_GenerateTake()    { script(find("GenerateTake")) }
+func VH_c20_script_SeqMethods()      { script(find("SeqMethods")) }
